@@ -1,5 +1,5 @@
 """contracts for src/messages/position_report.rs (types 1-3)"""
-from common import MSG_PROLOGUE, bits_closure_head, signed_closure
+from common import MSG_PROLOGUE, apply_bits_closure, apply_signed_closures
 from layout import gen_posts
 
 # ITU-R M.1371-5 Table 45 (messages 1, 2, 3), 168 bits
@@ -41,9 +41,8 @@ def apply(fc):
     ens_inner = ['%s(data.0@, strip(r))' % names[t] for t in names]
     ens_outer = ['%s(data@, strip(r))' % names[t] for t in names]
     fc.contract('parse_base', requires=['small(data@.len() as int)'], ensures=ens_outer)
-    fc.replace_in('parse_base', 'bits(move |data| -> IResult<_, _> {', bits_closure_head('PositionReport', ens_inner))
-    fc.replace_in('parse_base', '|data| signed_i32(data, 28)', signed_closure(28))
-    fc.replace_in('parse_base', '|data| signed_i32(data, 27)', signed_closure(27))
+    apply_bits_closure(fc, 'parse_base', 'PositionReport', ens_inner)
+    apply_signed_closures(fc, 'parse_base', (28, 27))
     fc.contract('parse', within='for PositionReport', ensures=['%s(data@, strip1(r))' % names[t] for t in names])
     fc.contract('parse', within='impl NavigationStatus', ensures=['r == navstatus_spec(data)'], tags=['C12'])
     fc.lemma('navstatus_injective', ['C12'])
